@@ -123,6 +123,27 @@ RPieces(P, lr, l, ps, seen) ==
 \* the fully substituted value locale l shows for key k (l's own entry; callers use SourceOf for fallback)
 Resolved(P, l, k) == RKey(P, l, l, k, {})
 
+\* ---- what a generated accessor shows for a resolved value (L2) -----------------------------------------
+\* env    : variable name -> symbols
+\* counts : count variable name -> [ty |-> range type | "plural", idx |-> anchor index, tok |-> plural token, sym |-> token symbols]
+\* lr     : the locale being rendered (its plural rules apply)
+CountShown(c) == IF c.ty = "plural" THEN c.sym ELSE Disp[c.ty][c.idx]
+NoBranch == <<"NOBRANCH">>
+RECURSIVE RenderX(_, _, _, _)
+RenderX(ps, env, counts, lr) ==
+    IF ps = <<>> THEN <<>>
+    ELSE LET h == Head(ps)
+             hd == IF h.k = "text" THEN h.s
+                   ELSE IF h.k = "var" THEN (IF Str(h.n) \in DOMAIN counts THEN CountShown(counts[Str(h.n)]) ELSE env[Str(h.n)])
+                   ELSE IF h.k = "comp" THEN <<"LT">> \o h.n \o <<"GT">> \o RenderX(h.c, env, counts, lr) \o <<"LT", "SL">> \o h.n \o <<"GT">>
+                   ELSE IF h.v.k = "ranges"
+                        THEN LET i == Select(h.v.b, counts[Str(h.v.ck)].idx) IN
+                             IF i = 0 THEN NoBranch ELSE RenderX(h.v.b[i].v, env, counts, lr)
+                        ELSE RenderX(h.v.forms[FormFor(DOMAIN h.v.forms, PluralCat(lr, h.v.ty, counts[Str(h.v.ck)].tok))], env, counts, lr)
+             tl == RenderX(Tail(ps), env, counts, lr) IN
+         hd \o tl
+HasNoBranch(out) == \E i \in DOMAIN out : out[i] = "NOBRANCH"
+
 \* ---- signature of a key (C08) and expected projection ---------------------------------------------
 RECURSIVE VarsIn(_), CompsIn(_), CountsIn(_)
 VarsIn(ps) == UNION { IF ps[i].k = "var" THEN {Str(ps[i].n)}
